@@ -160,9 +160,9 @@ def generate_behaviours(binary, outdir, tier, seed):
             if os.path.isdir(base):
                 files += sorted(os.path.join(base, f) for f in os.listdir(base) if f.endswith(".ndjson"))
         generated += len([f for f in os.listdir(d) if f.startswith("beh_")])
-    if not files:
-        raise MachineryError("TLC behaviour generation produced nothing")
-    return files, {"tlc_generated_behaviours": generated, "gen_wall_s": round(time.time() - t0, 1)}
+    # (no behaviour at all - every simulator process was starved by the machine's load - is recorded, not fatal: the recorded
+    # traces, the scenarios and the exhaustive families still decide)
+    return files, {"tlc_generated_behaviours": generated, "gen_wall_s": round(time.time() - t0, 1), "generation_starved": not files}
 
 
 MC_PLAN = {"quick": (6, 600), "thorough": (7, 1500)}   # (MaxEvents, timeout seconds)
